@@ -276,7 +276,7 @@ pub fn mb_run(input: &str) -> i32 {
         handles.push(h);
     }
     sched.start();
-    let sup = sched.supervise(120.0);
+    let sup = sched.supervise(60.0);
     let mut out = EpisodeOut::default();
     if let Err(e) = sup {
         out.error = Some(e);
@@ -716,7 +716,7 @@ fn judge_episode(sc: &Scenario, out: &EpisodeOut, refs: &BTreeMap<String, RefOut
 }
 
 fn run_episode(sc: &Scenario, root: &str) -> Result<EpisodeOut, String> {
-    let v = child_json("mb-run", &json!({"scenario": sc, "root": root}), 180.0)?;
+    let v = child_json("mb-run", &json!({"scenario": sc, "root": root}), 2700.0)?;
     serde_json::from_value(v).map_err(|e| e.to_string())
 }
 
@@ -861,7 +861,15 @@ pub fn worker(cfg: &WorkerCfg, emit: &mut dyn FnMut(Violation)) -> Stats {
         *stats.counters.entry(format!("strategy_{}{}", sc.strategy.kind, if sc.strategy.kind == "sticky" { format!("_{}", sc.strategy.p) } else if sc.strategy.kind == "pct" { format!("_{}", sc.strategy.d) } else { String::new() })).or_insert(0) += 1;
         // the digest covers the schedule, the event log and every outcome
         let outcomes: Vec<String> = out.results.iter().map(|x| format!("{}:{}:{}", x.thread, x.entry, x.outcome.short().replace(&root, "$R"))).collect();
-        stats.digests.insert(g, out.interleaving_hash ^ out.trace_digest.rotate_left(3) ^ fnv(format!("{:?}", outcomes).as_bytes()));
+        if out.foreign_events > 0 {
+            // a thread blocked on a lock of the code under test and the token was moved by the
+            // wall-clock detector: the schedule of this episode is not a function of the seed;
+            // only its outcomes are compared between layouts
+            stats.digests.insert(g, fnv(format!("{:?}", outcomes).as_bytes()));
+            stats.count("episodes_with_foreign_lock_recovery", 1);
+        } else {
+            stats.digests.insert(g, out.interleaving_hash ^ out.trace_digest.rotate_left(3) ^ fnv(format!("{:?}", outcomes).as_bytes()));
+        }
         if stats.samples.len() < 3 && (inside_switch && g % 11 == 0) {
             let mut small = sc.clone();
             small.files = small.files.into_iter().map(|(k, v)| (k, if v.len() > 300 { format!("{}...", &v[..v.char_indices().take_while(|(i, _)| *i < 300).last().map(|(i, c)| i + c.len_utf8()).unwrap_or(0)]) } else { v })).collect();
